@@ -19,6 +19,15 @@ CHECKS = {
  'C04': dict(cat='exploration', tech='API recorder over the full (class x declared attribute x route) cross product + dictionary model for sequences; oracle = reference attribute tables and lexical validator',
    text='Every declared (class, attribute) pair (2096) is driven through constructor keyword, dot assignment and the parser with certified valid and invalid values; stored key, read-back, serialised name/value, removal by None, undeclared names, enforcement of required attributes and seeded set/overwrite/remove sequences are observed.',
    note='validity of a value is judged on lexical forms by the reference validator; the float battery lives in C05', ref='7 C04'),
+ 'C05': dict(cat='exploration', tech='API recorder over (simple type x lexical form x Python spelling x route) + float/bool/non-finite battery; oracle = reference lexical validator in both directions',
+   text='Every simple type is crossed with a pool of several hundred lexical forms (all enumeration literals of all types, boundaries, pattern positives and near misses, whitespace variants) offered as str/int/float through the type classes, a carrying element and a carrying attribute; every acceptance is judged on the emitted text, every reference-valid normalised form on acceptance; every class without character content is offered text.',
+   note='direction (b) demands acceptance only if every natural spelling is refused; built-ins modelled from the XSD datatypes spec and from xml.xsd', ref='7 C05'),
+ 'C08': dict(cat='exploration', tech='infoset comparator over write()/to_string() output vs parse_musicxml(...).to_string(), two round trips; oracle = xml.etree infosets + reference types for numeric tolerance',
+   text='Reference-grammar documents (per element name and whole scores) are built through the API, emitted, re-parsed, compared as infosets (decimal spelling of decimal-typed content tolerated only), round-tripped a second time for byte identity, and parsed integer-typed values are checked to stay int.',
+   note='documents the builder refuses are inconclusive (counted in evidence), not violations', ref='7 C08'),
+ 'C09': dict(cat='exploration', tech='parse_musicxml recorder + infoset equality on library-independent certified-valid text, containment checker on mutated text; failing documents localised and shrunk',
+   text='XML text generated without the library from the reference grammar (all attribute forms incl. xml:/xlink:/name=, unusual numeric spellings), real exports, and structure-aware mutations: valid input must load and re-serialise to the same infoset; on any input a returning parser must not have dropped an element, attribute, text or tail.',
+   note='surrounding whitespace of string content treated as insignificant (lenient); reference validator certifies validity', ref='7 C09'),
  'C06': dict(cat='exploration', tech='shadow model + invariants evaluated at every public-call boundary (incl. raise path) + exactly-once output count',
    text='After every operation of every explored history both child views are compared (by identity) with each other and with a sequential shadow model fed by API results only; parents of live and removed children and the per-child count in every serialisation are checked.',
    note='verdicts use public API only; shadow model is 15 lines', ref='7 C06'),
